@@ -760,6 +760,14 @@ func runC08(h *H) {
 			h.DoRisky("thrift.decode", pn, "0", tv[0], hx(b), thriftDecode(thriftProto(pn), false, t, b))
 		}
 	}
+	// collections whose bool element / key / value type is announced as 1 (TRUE): the specification asks readers to accept it
+	for _, c := range [][3]string{{"map bool i8", "01130105", "01230105"}, {"map i8 bool", "01310501", "01320501"}, {"sl bool", "210100", "220100"},
+		{"map bool bool", "01110101", "01220101"}} {
+		t := parseTy(c[0])
+		for _, strict := range []string{"0", "1"} {
+			h.DoRisky("thrift.decode", "c", strict, c[0], c[1], thriftDecode(thriftProto("c"), false, t, unhx(c[2])))
+		}
+	}
 	// missing required field / strict type mismatch, directed
 	req := `st 2 f A 7468726966743a22312c726571756972656422 0 i32 f B 7468726966743a223222 0 str`
 	for _, pn := range thriftProtos {
